@@ -73,4 +73,46 @@ Section Close2.
     - rewrite R6. exact Htmo.
     - rewrite R4. exact Hcur.
   Qed.
+
+  Lemma pstate_eqb_eq a b : pstate_eqb a b = true <-> a = b.
+  Proof. destruct a, b; cbn; split; intros H; try reflexivity; try discriminate. Qed.
+
+  Lemma pstate_eqb_neq a b : pstate_eqb a b = false <-> a <> b.
+  Proof. destruct a, b; cbn; split; intros H; try reflexivity; try discriminate; try congruence. Qed.
+
+  Lemma closed_res_repack (s : state) (r : res) d : closed_res s r -> closed_res s (mkRes (r_s r) d (r_out r)).
+  Proof. intros [A B C D E]. constructor; assumption. Qed.
+
+  Lemma net_closed_raw_spec (s : state) :
+    WFS s -> s_st s <> Disconnected -> closed_res s (net_closed_raw cfg s).
+  Proof.
+    intros HW Hst. rewrite net_closed_raw_unfold. apply pstate_eqb_neq in Hst. rewrite Hst.
+    set (s0 := s <| s_st := Disconnected |> <| s_connack_to := None |> <| s_next_ping := None |>
+                 <| s_ping_to := None |> <| s_tmo := [] |>).
+    assert (HW0 : WFS s0) by exact HW.
+    destruct (closed_current_spec cfg s0 HW0 eq_refl) as (A1 & A2 & A3 & A4 & A5 & A6).
+    cbv zeta. rewrite (try_ok _ _ A1).
+    set (s1 := r_s (closed_current cfg s0)) in *.
+    destruct (slow_start_init_spec cfg s1 A2) as (s2 & E2 & B1 & B2 & B3 & B4 & B5). rewrite E2.
+    destruct (update_retries_spec cfg s2 B1) as (s3 & E3 & C1 & C2 & C3 & C4 & C5). rewrite E3.
+    apply closed_res_repack.
+    assert (T0 : s_tmo s0 = []) by reflexivity.
+    eapply closed_res_pid; [|apply phaseA_spec; try assumption; congruence].
+    eapply pidpres_trans; [|exact C5]. eapply pidpres_trans; [|exact B5].
+    eapply pidpres_trans; [|exact A6]. apply (pidpres_ops s s0). reflexivity.
+  Qed.
+
+  (* the close event proper *)
+  Lemma net_closed_spec (s : state) :
+    WFS s -> s_st s <> Disconnected ->
+    let r := net_closed cfg s in
+    r_out r = Ok tt /\ WFS (r_s r) /\ s_st (r_s r) = Disconnected /\ closed_fields (r_s r) /\ pidpres s (r_s r).
+  Proof.
+    intros HW Hst. destruct (net_closed_raw_spec s HW Hst) as [A B C D E]. unfold net_closed.
+    apply pstate_eqb_neq in Hst. rewrite Hst. destruct A as [A|A]; rewrite A; cbn [r_s r_out]; auto.
+  Qed.
+
+  Lemma net_closed_disconnected (s : state) :
+    s_st s = Disconnected -> net_closed cfg s = mkRes s [] (Err EInternalStateError).
+  Proof. intros H. unfold net_closed, net_closed_raw. rewrite H. reflexivity. Qed.
 End Close2.
